@@ -49,6 +49,14 @@ CLAIMED = {
         "DESIGN.md §4 C04",
         "exploration",
     ),
+    "C01": (
+        "Hypothesis-generated typed values x ingestion paths, identity (round-trip) oracle",
+        "Edge-biased values of 12 type families (38 spellings) with NULLs are written through 8 ingestion paths and read back; the oracle "
+        "is identity in the connector's Python type, plus unchanged source/bystander tables. Exploration.",
+        "Values are constructed to be exactly representable in the declared type; literal rendering is the harness's own.",
+        "DESIGN.md §4 C01",
+        "exploration",
+    ),
 }
 
 NOT_YET = {}
